@@ -40,13 +40,16 @@ def main():
     results = re.findall(r"test result: (\w+)\. (\d+) passed; (\d+) failed", o)
     meta["suite_with_change"] = {"passed": sum(int(r[1]) for r in results), "failed": sum(int(r[2]) for r in results)}
     rc_with, o_with = sh("cargo test --offline --test seed_demo 2>&1", cwd=wt)
-    meta["demo_with_change"] = "fails" if rc_with != 0 else "PASSES (unexpected)"
+    inverted = "--demo-inverted" in sys.argv   # compile-time contracts: the demo must be *rejected* by the compiler on a correct crate
+    meta["demo_kind"] = "must not compile on a correct crate" if inverted else "test fails with the change"
+    meta["demo_with_change"] = ("fails" if rc_with != 0 else "PASSES (unexpected)") if not inverted else ("compiles and runs" if rc_with == 0 else "REJECTED (unexpected)")
     meta["demo_output_with_change"] = o_with[-1500:]
     sh("git apply -R patch.diff", cwd=wt)
     rc_without, o_without = sh("cargo test --offline --test seed_demo 2>&1", cwd=wt)
     sh("git apply patch.diff", cwd=wt)
-    meta["demo_without_change"] = "passes" if rc_without == 0 else "FAILS (unexpected)"
-    confirmed = meta["suite_with_change"]["failed"] == 0 and meta["suite_with_change"]["passed"] >= 134 and rc_with != 0 and rc_without == 0
+    meta["demo_without_change"] = ("passes" if rc_without == 0 else "FAILS (unexpected)") if not inverted else ("rejected by the compiler" if rc_without != 0 and "E0277" in o_without else "ACCEPTED (unexpected)")
+    demo_ok = (rc_with != 0 and rc_without == 0) if not inverted else (rc_with == 0 and rc_without != 0 and "E0277" in o_without)
+    confirmed = meta["suite_with_change"]["failed"] == 0 and meta["suite_with_change"]["passed"] >= 134 and demo_ok
     meta["confirmed"] = confirmed
     shutil.copy(os.path.join(wt, "patch.diff"), os.path.join(out, "patch.diff"))
     shutil.copy(os.path.join(wt, "tests", "seed_demo.rs"), os.path.join(out, "seed_demo.rs"))
